@@ -22,6 +22,7 @@ META = {
     "(the GainLoss properties decided by C04) starting from zero; one YearlyGainLoss per dictionary key with name-aligned forwarding; iteration is over the unfiltered, "
     "time-sorted set and stops strictly after the to-date passed by ComputedData; the from filter keeps whole years >= the from-date's year; the report's two summary "
     "tables write year, asset, gain, LONG/SHORT, type, crypto total, proceeds total, cost basis total from the list's own lines.",
+    "restated": "the detail table's window is cut on the same own calendar date as the summary (entry-set iterator, C10.a)",
     "not_decided": "equality of decimal sums as run-time numbers (associativity/rounding); that grand totals match is a corollary, not separately decided.",
     "assumptions": ["dataclass eq/hash over all fields; dict semantics", "the entry-set iterator yields entries in time order (C10.a)"],
 }
